@@ -78,7 +78,7 @@ def run(ctx):
     sysm = []
     sysm += c06.systematic()[::3] + [x for x in c06.systematic() if '%' in json.dumps(x)] + c04.systematic()[::9] + c05.e2e_systematic(ctx)[::7] + c05.e2e_fractional() + [r for r in c08.systematic()[::4]] + [x[0] for x in c09.systematic()[::5]]
     # keys that are delicate for one of the two decoders (struct-tag syntax, YAML plain scalars): required and optional, with constraints
-    for keys in (["-", "plain"], ["yes", "null", "0"], ["a b", "x:y", "#c", "~t"], ["-", "yes", "a b", "other"], ["id", "path\\name"], ["tab\\there", "ok", "back\\\\slash"]):
+    for keys in (["-", "plain"], ["yes", "null", "0"], ["a b", "x:y", "#c", "~t"], ["-", "yes", "a b", "other"], ["id", "path\\name"], ["tab\\there", "ok", "back\\\\slash"], ["cpu%", "mem"], ["100%d", "a%sb", "%", "ok"]):
         # (the last two: names outside the guard of C14 - neither decoder binds them on the unchanged tree - that still compile; only the agreement of the two decoders is judged)
         for req in (True, False):
             props = {}
